@@ -14,6 +14,8 @@ pub use proptest;
 pub use serde;
 pub use serde_json;
 
+pub mod secfuzz;
+
 use proptest::strategy::{BoxedStrategy, Strategy, ValueTree};
 use proptest::test_runner::{Config, RngAlgorithm, TestRng, TestRunner};
 use serde::{de::DeserializeOwned, Serialize};
@@ -1221,5 +1223,19 @@ macro_rules! section {
             rule: $rule,
             max_workers: $workers,
         })
+    }};
+}
+
+/// Thorough tier only: a coverage-guided libFuzzer campaign over the section's strategy and check
+/// (see `secfuzz`). `$target`/`$feature` name the fuzz binary of /verif/fuzz and its cargo feature.
+#[macro_export]
+macro_rules! fuzz_section {
+    ($rep:expr, $name:expr, $strat:expr, $check:expr, $target:expr, $feature:expr, $runs:expr, $cap:expr, $procs:expr) => {{
+        let strat = $strat;
+        let check = $check;
+        $rep.fuzz_campaign(
+            $crate::Section { name: $name, cases: (0, 0), strategy: &strat, check: &check, rule: "", max_workers: 16 },
+            $crate::secfuzz::Campaign { target: $target, feature: $feature, runs: $runs, cap_s: $cap, max_len: 16384, procs: $procs },
+        )
     }};
 }
